@@ -4,7 +4,7 @@ TITLE = "Both storage back-ends behave as one ordered-mailbox model under any hi
 DESIGN_REF = "DESIGN.md §4 C07"
 TECHNIQUE = "machine-checked proof in Coq + model/code correspondence check"
 LEVEL_TEXT = "proof: both back-end models refine the abstract ordered-mailbox store on EVERY history, observations and events by handle — the memory-store model for every cap and size limit (cap loop with first/last and the size enforcer as coded; its crash outcome is unreachable), the file-store model for every cap under the id-freshness hypothesis, which is itself derived from the environment assumption 'fewer than 10 000 deliveries per wall-clock second'; hence backends_equivalent for every cap, and list_oldest_first, latest_is_last, ids_not_reused, read_back_as_written, missing_is_not_exist, remove_only_named. The id generation of the file store where fix 0010 lives (hasID loop on taken candidate ids, incl. the counter wrap 9999->0000) is compared with FileStore.gen_loop by the collide stream (ids planted in the on-disk index). The tie of the models to /repo is the correspondence check (1000 histories per run on the real stores; the verdict is the extracted spec applied to what the implementation answered)."
-LEVEL_NOTE = "models: coq/Model/MemStore.v, FileStore.v (as coded after fixes 0003 0004 0005 0006 0010), StoreSpec.v; tie to /repo: go/cmd/c07 runs the same histories on the real mem and file stores, the verdict is StoreSpec.run_spec applied to what the implementation answered; list_oldest_first, ids_not_reused, remove_only_named and missing_is_not_exist are facts about the abstract store (StoreSpec) that the refinement theorems carry to both back-end models operation by operation; facts about the back-ends' own state are exported separately: ids_distinct (ids returned by the deliveries to a mailbox are pairwise distinct), missing_is_not_exist_backends, latest_is_last(_file), read_back_as_written(_file), and the kernel-evaluated 21-operation instance backends_equivalent_instance; tied to the source by the translator (go/cmd/pins/c07.go -> coq/Gen/StorePins.v, regenerated on every run): the file store id format / counter / path scheme (file_id_format_pinned), the functions that remove messages and those that emit the after-events (removal_paths_emit: every removal path of either store announces what it removes; AfterMessageStored is emitted by StoreManager.Deliver only), the order of the steps of the delivery paths (add_steps_pinned); ids_are_literal: only the literal rendering of an id names its message (the spelling family of the generator is its check side)"
+LEVEL_NOTE = "models: coq/Model/MemStore.v, FileStore.v (as coded after fixes 0003 0004 0005 0006 0010), StoreSpec.v; tie to /repo: go/cmd/c07 runs the same histories on the real mem and file stores, the verdict is StoreSpec.run_spec applied to what the implementation answered; list_oldest_first, ids_not_reused, remove_only_named and missing_is_not_exist are facts about the abstract store (StoreSpec) that the refinement theorems carry to both back-end models operation by operation; facts about the back-ends' own state are exported separately: ids_distinct (ids returned by the deliveries to a mailbox are pairwise distinct), missing_is_not_exist_backends, latest_is_last(_file), read_back_as_written(_file), and the kernel-evaluated 21-operation instance backends_equivalent_instance; tied to the source by the translator (go/cmd/pins/c07.go -> coq/Gen/StorePins.v, regenerated on every run): the file store id format / counter / path scheme (file_id_format_pinned), the functions that remove messages and those that emit the after-events (removal_paths_emit: every removal path of either store announces what it removes; AfterMessageStored is emitted by StoreManager.Deliver only), the order of the steps of the delivery paths (add_steps_pinned); ids_are_literal: only the literal rendering of an id names its message (the spelling family of the generator is its check side)" + " Composed over ONE abstract store with the other interfaces' models (Proofs/InterfacesRemoval.v, InterfacesRemovalPop3.v, InterfacesSeen.v): removed_message_is_gone_from_every_interface / purged_mailbox_is_empty_in_every_interface (after REST DELETE the store, REST /source, web-UI /source and a second DELETE answer not-there, the listing and the POP3 view lose exactly that message, everything else is untouched), pop3_quit_deletions_reach_every_interface (what a POP3 QUIT commits is gone from the store and REST, what the session did not mark stays), seen_changes_only_the_flag (PATCH seen changes one flag; POP3 view and sources unchanged); removal_premises_hold / quit_instance are kernel-evaluated instances."
 RULE = ("random operation histories (4-60 ops, 1-5 mailboxes incl. names sharing a 12-bit SHA-1 prefix, '@', special characters and spellings that differ only in letter case (different mailboxes); "
         "characters; missing / not-yet-issued / bogus / 'latest' handles and other SPELLINGS of a live id (18 variants: leading zeros, sign, blanks, TAB, letter case, path decorations x/ID ./ID ID/ ../ID ID/. ID/../ID x/latest, NUL or newline appended, the id doubled: they name no message), double removes, purge-then-latest) on a fresh real "
         "memory store and a fresh real file store; distinct = distinct input line; non-trivial = at least one add and one "
